@@ -1921,6 +1921,22 @@ impl Check for C07 {
         if printed_txt.matches("Map<").count() >= 2 && !features.contains(&"union_of_maps") {
             features.push("union_of_maps");
         }
+        // the same root cause seen from the operands: two different Map types in the members of an operand make the operand
+        // itself not assignable to itself (decided by asking the engine, not assumed), and then nothing computed from it
+        // can round-trip - even when the Map that disagrees sits in a branch the operation removes
+        if !features.contains(&"union_of_maps") {
+            let has_map = |d: &D| crate::c02::reaches(&case.env, d, &mut |n| matches!(n, D::Map(_, _)));
+            for d in [&case.x, &case.y] {
+                if has_map(d) {
+                    if let Ok(v) = ctx.compiler.sem(json!({"sem":"subtype","env":case.env,"a":d,"b":d}), 10) {
+                        if v["same"] == json!(false) {
+                            features.push("union_of_maps");
+                            break;
+                        }
+                    }
+                }
+            }
+        }
         let feature = features.first().copied();
         let sigs = |base: &str| -> Vec<String> {
             if dropped {
